@@ -1359,6 +1359,7 @@ class XonshParser(Parser):
         self._reset(mark)
         return None
 
+    @memoize
     def closed_pattern(self) -> Any | None:
         # closed_pattern: literal_pattern | capture_pattern | wildcard_pattern | value_pattern | group_pattern | sequence_pattern | mapping_pattern | class_pattern
         return self.seq_alts(
@@ -1593,6 +1594,7 @@ class XonshParser(Parser):
             self.pattern,
         )
 
+    @memoize
     def star_pattern(self) -> Any | None:
         # star_pattern: '*' pattern_capture_target | '*' wildcard_pattern
         mark = self._mark()
